@@ -91,7 +91,7 @@ func cmdCheck(args []string) int {
 	tier := fs.String("tier", "", "quick|thorough")
 	workers := fs.Int("workers", 0, "solver workers")
 	only := fs.String("entry", "", "run only this entry (comma separated)")
-	solver := fs.String("solver", "z3", "solver binary")
+	solver := fs.String("solver", "", "solver binary (default z3-new, else z3)")
 	qto := fs.Int("qtimeout", 60000, "per-query timeout ms")
 	noReplay := fs.Bool("no-replay", false, "skip native replay (debug)")
 	verbose := fs.Bool("v", false, "verbose")
@@ -113,12 +113,21 @@ func cmdCheck(args []string) int {
 	if *workers == 0 {
 		*workers = 14
 	}
+	if *solver == "" {
+		*solver = "z3"
+		if p, err := exec.LookPath("z3-new"); err == nil {
+			*solver = p
+		}
+	}
 	seed := 0
 	if s := os.Getenv("VERIF_SEED"); s != "" {
 		seed, _ = strconv.Atoi(s)
 	}
 	vd := verifDir()
 	t0 := time.Now()
+	if out, err := exec.Command(*solver, "--version").Output(); err == nil {
+		solverDesc = strings.TrimSpace(string(out)) + " (" + *solver + " -in, incremental: path-condition prefix in one push level, one push/pop per query, global-decls, no set-logic)"
+	}
 	spec, err := loadSpec(vd, prop)
 	if err != nil {
 		fmt.Fprintf(os.Stderr, "ERROR: %v\n", err)
@@ -165,6 +174,9 @@ func cmdCheck(args []string) int {
 		}
 		if e.Pkg == "" {
 			e.Pkg = spec.Packages[0]
+		}
+		if v := os.Getenv("VERIF_ENTRY_TIMEOUT"); v != "" {
+			e.TimeoutS, _ = strconv.Atoi(v)
 		}
 		if *tier == "thorough" && e.ParamsT != nil {
 			if e.Params == nil {
@@ -434,7 +446,9 @@ func runReplay(bin, dir, rfile string, idx int, timeout time.Duration) string {
 	td, _ := os.MkdirTemp("", "verif-replay-home-")
 	defer os.RemoveAll(td)
 	cmd.Env = append(os.Environ(), "VERIF_REPLAY="+rfile, fmt.Sprintf("VERIF_REPLAY_INDEX=%d", idx), "HOME="+td, "XDG_CONFIG_HOME="+td, "VERIF_TMP="+td)
+	tStart := time.Now()
 	b, err := cmd.CombinedOutput()
+	timedOut := time.Since(tStart) >= timeout-500*time.Millisecond
 	txt := string(b)
 	var viol []string
 	ended, panicked, assumeFailed := false, "", false
@@ -473,7 +487,7 @@ func runReplay(bin, dir, rfile string, idx int, timeout time.Duration) string {
 		return vs
 	}
 	if err != nil {
-		if ee, ok := err.(*exec.ExitError); ok && (ee.ExitCode() == 137 || ee.ExitCode() == 124) {
+		if ee, ok := err.(*exec.ExitError); ok && (timedOut || ee.ExitCode() == 137 || ee.ExitCode() == 124) {
 			return "timeout " + vs
 		}
 		tail := txt
